@@ -51,6 +51,17 @@ def one(rng: random.Random, k: int) -> dict:
     build.LOG.clear()
     with contextlib.redirect_stdout(io.StringIO()):
         pl = build.make_pipeline(pd)
+    # the pipeline object that fails may have been restored from a pickle (shipped from another session) or deep-copied:
+    # it is the same pipeline, and exposes its failures the same way
+    if k % 5 in (2, 4):
+        import cloudpickle
+        import copy
+        import pickle
+        try:
+            with contextlib.redirect_stdout(io.StringIO()):
+                pl = pickle.loads(cloudpickle.dumps(pl)) if k % 5 == 2 else copy.deepcopy(pl)  # noqa: S301
+        except Exception:  # noqa: BLE001  (not a statement of C13: keep the object built here)
+            pass
     events: list[dict] = []
     kws = [kw] + ([[[x, {"f": f"@k2_{x}", "a": []}] for x in cut]] if twice else [])
     for j, kwj in enumerate(kws):
